@@ -339,8 +339,18 @@ def rnd_text(rng, lo=0, hi=12):
     return "".join(rng.choice(ALPHA) for _ in range(rng.randint(lo, hi)))
 
 
+# text that merely looks like a value of another type stays text
+LOOKALIKES = ["2024-05-01T12:30:00", "2023-12-31T23:59:59.123456",
+              "2024-05-01", "12:30:00", "1970-01-01T00:00:00Z", "true",
+              "null", "NaN", "Infinity", "-0", "1e5", "0x10", "[1, 2]",
+              '{"a": 1}', "b'bytes'", "aGVsbG8=", "\\u0041",
+              "550e8400-e29b-41d4-a716-446655440000", "1.0", "007", " 1 "]
+
+
 def rnd_scalar(rng):
-    kind = rng.randrange(8)
+    kind = rng.randrange(9)
+    if kind == 8:
+        return rng.choice(LOOKALIKES)
     if kind == 0:
         return None
     if kind == 1:
@@ -479,7 +489,9 @@ def run(ctx):
     cps_names = ["bz2", "zlib-like", "none"]
     configs = list(attr_subsets(rng))
     small = [{"a": 1}, {"user": "žofka", "n": [1, 2, {"x": None}]},
-             {}, {"kéy": "v" * 30, "t": True}]
+             {}, {"kéy": "v" * 30, "t": True},
+             {"since": "2024-05-01T12:30:00", "flag": "true", "n": "1e5",
+              "in": {"at": "2023-12-31T23:59:59.123456"}}]
 
     def load_pool(secret, cps, sid):
         other = rnd_secret(rng)
